@@ -108,6 +108,10 @@ InhCases == {[group |-> "inh", ty |-> "Der", omit |-> o, valid |-> o = "none"] :
 \* ------------------------------------------------- a mandatory member that travels under another name (sub_name)
 SubNameCases == {[group |-> "subname", ty |-> "Sn", how |-> h, valid |-> h = "present"] : h \in {"present", "absent"}}
 
+\* ------------------------------------------------- a mandatory XML ATTRIBUTE member: At{v: attribute Integer, mandatory; w: Integer}
+\* (declared through the wrapped type's min_occurs = 1, or with use = required): present -> valid, absent -> invalid
+AttrReqCases == {[group |-> "attrreq", ty |-> "At", decl |-> d, how |-> h, valid |-> h = "present"] : d \in {"min1", "required"}, h \in {"present", "absent"}}
+
 \* ------------------------------------------------------------- times of day
 \* the bound has a sub-second part (hh:00:00.25); the probes spell fractions with one to six digits: ".3" is three tenths
 TimeProbes == { <<"", 0>>, <<".2", 200000>>, <<".25", 250000>>, <<".3", 300000>>, <<".250001", 250001>>, <<".24999", 249990>>,
@@ -152,7 +156,7 @@ OutCases == {[group |-> "out", ty |-> "ByteArray", facet |-> e, bytes |-> b, lit
                  <<"Double", "1e+22">>, <<"Double", "1e-07">>, <<"Double", "-0.0">>, <<"Double", "inf">>, <<"Double", "nan">>,
                  <<"Integer", "123456789012345678901234567890">>, <<"Unicode", "lt_amp">>, <<"Unicode", "sp_lead">> }}
 
-Cases == ObjArrCases \cup NumCases \cup BigCases \cup StrCases \cup EnumCases \cup OccCases \cup NilCases \cup DateCases \cup ZoneCases \cup TimeCases \cup InhCases \cup SubNameCases \cup LexCases
+Cases == ObjArrCases \cup NumCases \cup BigCases \cup StrCases \cup EnumCases \cup OccCases \cup NilCases \cup DateCases \cup ZoneCases \cup TimeCases \cup InhCases \cup SubNameCases \cup AttrReqCases \cup LexCases
 
 \* ---- laws of the table (anti-vacuity): every facet is effective - some probe is rejected by it
 \* alone - and admits something
